@@ -97,11 +97,12 @@ def run_case(c):
         data = open(path, "rb").read()
         os.remove(path)
         for pos, val in c["edits"]:
-            if data[pos] == val:
+            vals = val if isinstance(val, list) else [val]          # one byte, or a whole four-byte tag written at pos
+            if list(data[pos:pos + len(vals)]) == vals:
                 continue
             def g():
                 bad = bytearray(data)
-                bad[pos] = val
+                bad[pos:pos + len(vals)] = bytes(vals)
                 p2 = os.path.join(d, "bad.mid")
                 with open(p2, "wb") as fh:
                     fh.write(bytes(bad))
@@ -110,6 +111,6 @@ def run_case(c):
                     return 0
                 finally:
                     os.remove(p2)
-            R.append(call("corrupt", {"pos": pos, "val": val, "orig": data[pos]}, g, integer, timeout=5))
+            R.append(call("corrupt", {"pos": pos, "val": vals, "orig": list(data[pos:pos + len(vals)])}, g, integer, timeout=5))
         os.rmdir(d)
     return R
